@@ -54,6 +54,18 @@ def generate(rng, tier, idx):
         ops = []
         for _ in range(rng.choice([0, 1, 1, 2, 3])):
             k = rng.choice(['add', 'delete', 'same', 'same', 'same', 'other', 'other'])
+            if rng.random() < 0.08:
+                # a whole directory arrives with its own, consistent Manifest (unpacked, rsynced or moved in: every
+                # mtime may well be older than the previous TIMESTAMP)
+                d = rng.choice(dirs)
+                nd = (d + '/' if d else '') + 'pkg%d' % rng.randrange(100)
+                if any(x == nd or x.startswith(nd + '/') for x in live):
+                    continue
+                fs = ['data%d' % j for j in range(rng.choice([1, 1, 2]))]
+                live.extend(nd + '/' + f for f in fs)
+                ops.append({'k': 'adddir', 'p': nd, 'files': {f: GT.rand_content(rng) for f in fs},
+                            'mt': [rng.choice(['older', 'older', 'equal', 'nss', 'newer']), rng.choice([1, 2, 600, 86400])]})
+                continue
             if k == 'add' or not live:
                 d = rng.choice(dirs)
                 p = (d + '/' if d else '') + 'n%d' % rng.randrange(100)
@@ -137,10 +149,24 @@ def resolve_mtime(mt, T_ns, now_ns):
     return T_ns + mag * 10**9
 
 
-def apply_op(root, op, t_ns, recorded=None):
+def apply_op(root, op, t_ns, recorded=None, hashes=('SHA256',)):
     p = os.path.join(root, op['p'])
     k = op['k']
     try:
+        if k == 'adddir':
+            if os.path.lexists(p):
+                return False
+            os.makedirs(p)
+            ents = []
+            for n, c in sorted(op['files'].items()):
+                with _o['open'](os.path.join(p, n), 'wb') as f:
+                    f.write(c.encode())
+                _o['os.utime'](os.path.join(p, n), ns=(t_ns, t_ns))
+                ents.append({'tag': 'DATA', 'path': n, 'size': len(c.encode()), 'sums': G.digests(c.encode(), list(hashes))})
+            with _o['open'](os.path.join(p, 'Manifest'), 'w') as f:
+                f.write(G.dump(ents))
+            _o['os.utime'](os.path.join(p, 'Manifest'), ns=(t_ns, t_ns))
+            return True
         if k == 'add':
             if os.path.lexists(p):
                 return False     # would be a modification with an unconstrained mtime
@@ -273,9 +299,9 @@ def execute(sc):
                 T_ns = int(TA.timestamp()) * 10**9 if TA else None
                 for op in rnd.get('ops', []):
                     t = resolve_mtime(op['mt'], T_ns, clock.now_ns) if 'mt' in op else clock.now_ns
-                    okA = apply_op(A, op, t, recorded)
-                    apply_op(B, op, t, recorded)
-                    if okA and op['k'] in ('same', 'other', 'add', 'delete'):
+                    okA = apply_op(A, op, t, recorded, hashes=sc['opts']['hashes'])
+                    apply_op(B, op, t, recorded, hashes=sc['opts']['hashes'])
+                    if okA and op['k'] in ('same', 'other', 'add', 'delete', 'adddir'):
                         modified += 1
                     counters['op.' + op['k'] + ('.' + op['mt'][0] if 'mt' in op else '')] = counters.get(
                         'op.' + op['k'] + ('.' + op['mt'][0] if 'mt' in op else ''), 0) + 1
